@@ -12,6 +12,6 @@ for f in sorted(glob.glob(os.path.join(VERIF, 'evidence', 'C*.json'))):
     bs = c.get('by_status', {})
     decided = sum(bs.get(k, 0) for k in ('ok', 'violation', 'uncompilable'))
     und = c.get('undecided_instances', 0)
-    fl.setdefault(prop, {})[tier] = {'decided': int(decided * 0.8), 'discharged': int(c['discharged'] * 0.8), 'max_undecided': max(5, und * 2 + 3)}
+    fl.setdefault(prop, {})[tier] = {'decided': int(decided * 0.8), 'discharged': int(c['discharged'] * 0.8), 'max_undecided': max(5, sum(bs.values()) // 200, (und + c.get('unsupported_instances', 0)) * 2 + 3)}
 json.dump(fl, open(p, 'w'), indent=1, sort_keys=True)
 print('floors for', sorted(fl))
